@@ -162,8 +162,18 @@ def run_history(h, wdir, tag="bfs"):
     viol = []
     info = None
     n = len(h)
+    ever = set(model.feats)
+
+    def touch():
+        # ordinary reads between the operations (they must never change what later reads see)
+        db.count_features_of_type("exon")
+        db.count_features_of_type()
+        for fid in list(model.feats)[:4]:
+            db[fid]
+
     try:
         for i, ev in enumerate(h):
+            touch()
             last = i == n - 1 and fault is None
             if not enabled(ev, model):
                 return dict(status="disabled", key=None, violations=[], info=None)
@@ -180,6 +190,7 @@ def run_history(h, wdir, tag="bfs"):
                     kind="operation-raised", sig=dict(event=ev.split(":")[0], exc=type(e).__name__),
                     detail=dict(history=list(h), event=ev, message=str(e)[:300]))])
             apply_model(ev, model)
+            ever |= set(model.feats)
             if last and backs_up:
                 bak = path + ".bak"
                 if not os.path.exists(bak):
@@ -210,6 +221,29 @@ def run_history(h, wdir, tag="bfs"):
                              detail=dict(history=list(h), extra=sorted(g - e), missing=sorted(e - g))))
         if live != got:
             viol.append(dict(kind="live-connection-differs-from-file", sig=sig, detail=dict(history=list(h))))
+        # the live object's own answers (counts, keyed look-ups) after the history
+        types = {}
+        for fid, f in model.feats.items():
+            types[f["cols"]["featuretype"]] = types.get(f["cols"]["featuretype"], 0) + 1
+        for t in list(types) + ["exon", "nosuchtype"]:
+            c = db.count_features_of_type(t)
+            if c != types.get(t, 0) or c != len(list(db.features_of_type(t))):
+                viol.append(dict(kind="live-count-differs", sig=dict(sig), detail=dict(history=list(h), featuretype=t, count=c,
+                                                                                      expected=types.get(t, 0))))
+        if db.count_features_of_type() != len(model.feats):
+            viol.append(dict(kind="live-count-differs", sig=dict(sig), detail=dict(history=list(h), featuretype=None,
+                                                                                  count=db.count_features_of_type(), expected=len(model.feats))))
+        for fid in sorted(ever):
+            try:
+                f = db[fid]
+                if fid not in model.feats:
+                    viol.append(dict(kind="lookup-finds-deleted-feature", sig=dict(sig), detail=dict(history=list(h), id=fid)))
+                elif (f.start, f.end, f.featuretype) != (model.feats[fid]["cols"]["start"], model.feats[fid]["cols"]["end"],
+                                                         model.feats[fid]["cols"]["featuretype"]):
+                    viol.append(dict(kind="lookup-returns-stale-feature", sig=dict(sig), detail=dict(history=list(h), id=fid, got=str(f))))
+            except gffutils.FeatureNotFoundError:
+                if fid in model.feats:
+                    viol.append(dict(kind="lookup-misses-stored-feature", sig=dict(sig), detail=dict(history=list(h), id=fid)))
         info = dict(n_features=len(got["features"]), n_relations=len(got["relations"]), auto_keys=len(model.handed_out))
         if len(set(model.handed_out)) != len(model.handed_out):
             viol.append(dict(kind="model-handed-out-key-twice", sig=None, detail=dict(keys=model.handed_out)))
